@@ -276,6 +276,11 @@ func Run(sc *Scenario) *History {
 			h.FinalMem[s] = memRecords(s)
 		}
 	}
+	if sc.Prop == "C12" && !sc.Cfg.Concurrent {
+		// a notification may be sent after the recharge was answered: give stragglers (and the
+		// SBI client's 10 s time-out) their time before the endpoint's log is read
+		time.Sleep(15 * time.Second)
+	}
 	h.SimEndNs = rt.Now()
 	h.Msgs = w.Net.Msgs()
 	h.Journal = rt.JournalOf(".cdr")
